@@ -106,6 +106,9 @@ func (d *renameDetector) detectExactRenames() {
 					}
 				}
 				deletes[hash] = newDeletes
+			} else {
+				// no usable source among the candidates: the addition stays an addition
+				addedLeft = append(addedLeft, c)
 			}
 		default:
 			addedLeft = append(addedLeft, c)
